@@ -892,6 +892,73 @@ theorem c05_tdm_no_reset_counterexample : ¬ c05_tdm_no_reset_statement := by
   revert this
   decide
 
+/-! ### the selection-method object: cached source array and `change_shg_mgr` -/
+
+namespace C05
+/-- the cached source array is the current source list of the held manager -/
+def Synced {S : Type} (w : EsmWorld S) : Prop := w.obj.srcArr = w.mgrs w.obj.shgId
+end C05
+
+/-- **`change_shg_mgr` refreshes the cache**: without an early return, after `change_shg_mgr(mgr)` the
+object holds `mgr` and its cached source array is `mgr`'s *current* source list — also when `mgr` is
+the manager it already held and the sources were moved / replaced in place —, so the next
+`select_events` is the stateless method at the current sources. -/
+theorem c05_esm_change_syncs {S ε : Type} (w : EsmWorld S) (id : Nat) (mk : List S → Method ε) :
+    (esmStep false w (.change id)).obj.shgId = id ∧ C05.Synced (esmStep false w (.change id)) ∧
+    esmSelect mk (esmStep false w (.change id)) = mk (w.mgrs id) := by
+  simp [esmStep, EsmObj.changeShgMgr, C05.Synced, esmSelect]
+
+/-- in-place changes of a manager the object does not hold never disturb it; being in sync is kept
+by every `change_shg_mgr` -/
+theorem c05_esm_synced_inv {S : Type} (w : EsmWorld S) (op : EsmOp S) (h : C05.Synced w)
+    (hop : ∀ id srcs, op = .mutate id srcs → id ≠ w.obj.shgId) : C05.Synced (esmStep false w op) := by
+  cases op with
+  | change id => simp [esmStep, EsmObj.changeShgMgr, C05.Synced]
+  | mutate id srcs =>
+    have hne := hop id srcs rfl
+    unfold C05.Synced at h ⊢
+    simp only [esmStep]
+    rw [if_neg (Ne.symm hne)]
+    exact h
+
+/-- **every history**: whatever was mutated or changed before, if the last operation is
+`change_shg_mgr(mgr)` the object selects with `mgr`'s current sources -/
+theorem c05_esm_history {S ε : Type} (w : EsmWorld S) (ops : List (EsmOp S)) (id : Nat)
+    (mk : List S → Method ε) :
+    esmSelect mk (esmRun false w (ops ++ [.change id])) = mk ((esmRun false w ops).mgrs id) := by
+  unfold esmRun
+  rw [List.foldl_append]
+  exact (c05_esm_change_syncs _ id mk).2.2
+
+/-- intersections: both sub-methods are refreshed -/
+theorem c05_esm_chain_change {S : Type} (o : EsmObj S × EsmObj S) (id : Nat) (srcs : List S) :
+    (chainChange false true o id srcs).1.srcArr = srcs ∧ (chainChange false true o id srcs).2.srcArr = srcs := by
+  simp [chainChange, EsmObj.changeShgMgr]
+
+/-- the current source has no early return and forwards to both sub-methods -/
+theorem c05_esm_for_current_source {S ε : Type} (w : EsmWorld S) (ops : List (EsmOp S)) (id : Nat)
+    (mk : List S → Method ε) (o : EsmObj S × EsmObj S) (srcs : List S) :
+    esmSelect mk (esmRun Gen.C05.esmEarlyReturn w (ops ++ [.change id])) =
+      mk ((esmRun Gen.C05.esmEarlyReturn w ops).mgrs id) ∧
+    (chainChange Gen.C05.esmEarlyReturn Gen.C05.intersectionPropagatesBoth o id srcs).1.srcArr = srcs ∧
+    (chainChange Gen.C05.esmEarlyReturn Gen.C05.intersectionPropagatesBoth o id srcs).2.srcArr = srcs := by
+  have h1 : Gen.C05.esmEarlyReturn = false := by decide
+  have h2 : Gen.C05.intersectionPropagatesBoth = true := by decide
+  rw [h1, h2]
+  exact ⟨c05_esm_history w ops id mk, c05_esm_chain_change o id srcs⟩
+
+/-- what an early return on "same manager object" would have to satisfy -/
+def c05_esm_early_return_statement : Prop :=
+  ∀ (w : EsmWorld Nat) (ops : List (EsmOp Nat)) (id : Nat),
+    C05.Synced (esmRun true w (ops ++ [.change id]))
+
+/-- sources moved in place, then `change_shg_mgr(same manager)`: with the early return the cache stays stale -/
+theorem c05_esm_early_return_counterexample : ¬ c05_esm_early_return_statement := by
+  intro h
+  have := h { mgrs := fun _ => [1], obj := { shgId := 0, srcArr := [1] } } [.mutate 0 [2]] 0
+  revert this
+  simp [C05.Synced, esmRun, esmStep, EsmObj.changeShgMgr]
+
 /-! ### the code before the fixes violated the property -/
 
 /-- what the re-indexing `np.take(sorted_idxs, evt_idxs)` (before the fix) would have to satisfy -/
